@@ -20,7 +20,7 @@ from .astutil import FUNC_TYPES, attr_chain, dotted
 from .effects import DELETED, EffectDomain, exc_info_of, is_generator
 from .generators import LazyGenerators
 
-CALLABLE_TAGS = ("func", "method", "boundmethod", "bound", "partial", "builtin", "listappend", "attrgetter", "itemgetter", "methodcaller", "classref", "ctorref", "userfn", "setmethod", "decoderfactory", "decodermethod", "strmethod", "dictmethod", "supermethod", "excclass")
+CALLABLE_TAGS = ("func", "method", "boundmethod", "bound", "partial", "builtin", "listappend", "attrgetter", "itemgetter", "methodcaller", "classref", "ctorref", "userfn", "setmethod", "decoderfactory", "decodermethod", "strmethod", "dictmethod", "supermethod", "excclass", "trackedfn")
 
 
 def is_inst(v):
@@ -350,7 +350,7 @@ class ObjectDomain(LazyGenerators, EffectDomain):
     @classmethod
     def _pure_constructor(cls, expr):
         return isinstance(expr, ast.Call) and (dotted(expr.func) or "").split(".")[-1] in cls._PURE_CONSTRUCTORS and all(
-            isinstance(a, (ast.Constant, ast.Name, ast.Attribute, ast.Tuple, ast.List)) for a in expr.args) and not expr.keywords
+            isinstance(a, (ast.Constant, ast.Name, ast.Attribute, ast.Tuple, ast.List)) for a in expr.args) and all(k.arg is not None and isinstance(k.value, ast.Constant) for k in expr.keywords)
 
     def _module_table(self, interp, name, st, fr):
         """A module-level name bound exactly once, at module level, to a literal table (dict / tuple / list / set whose
@@ -436,6 +436,8 @@ class ObjectDomain(LazyGenerators, EffectDomain):
         if all(isinstance(c, str) for c in chain) and ".".join(chain) in self.ctors and not st.has(fr.local(chain[0])):
             return ("ctorref", ".".join(chain))   # a constructor of the environment, handed around as a value
         if len(chain) == 1 and isinstance(chain[0], str) and not st.has(fr.local(chain[0])):
+            if self.track(chain[0]) or chain[0] in self.results:
+                return ("trackedfn", chain[0])   # a function of the environment, handed around as a value
             if chain[0] in ("bool", "repr", "str", "len", "object", "getattr", "setattr", "delattr", "hasattr"):
                 return ("builtin", chain[0])
             f = self._lookup_function(chain[0], fr) or self.classes.lookup_function(getattr(fr.func, "_module", None), chain[0])
@@ -811,6 +813,8 @@ class ObjectDomain(LazyGenerators, EffectDomain):
             # not a callable of the repository whose body will run: it receives (and the log records) what the lists / dicts hold now
             pos = [unbox_deep(v, st) for v in pos]
             kw = [(k, unbox_deep(v, st)) for k, v in kw]
+        if tag == "trackedfn":
+            return self.call_tracked_values(fn[1], pos, kw, st)
         if tag == "excclass" and not kw:
             # an exception class held in a variable (self.skipException ...), called: an exception of that class with those arguments
             return [val(("exc", fn[1], f"made in {fr.name}", tuple(unbox_deep(v, st) for v in pos)), st)]
